@@ -54,12 +54,16 @@ def main(argv):
     signal.alarm(limit)
 
     proof_problems = []   # (theorem-or-file, message)
+    timings = {}
+    tq = time.time()
     # 1. constants from the source
     try:
         import extract
         extract.run(getattr(mod, "GENERATED", []))
     except Exception as e:  # the source no longer yields the constants the model needs
         proof_problems.append(("Tahoe.Generated (extractor)", "%s: %s" % (type(e).__name__, e)))
+    timings["extract_s"] = round(time.time() - tq, 2)
+    tq = time.time()
     # 2. build theorems + driver
     props_module = mod.LEAN_PROPS
     drv = getattr(mod, "DRIVER", pid)
@@ -79,9 +83,11 @@ def main(argv):
         # the driver may still be buildable even if a theorem is not
         rc2, out2, _ = common.lake_build(["drv_" + drv.lower()])
         model_ok = (rc2 == 0)
+    timings["build_incl_lock_wait_s"] = round(time.time() - tq, 2)
+    tq = time.time()
     # 3. audit
     axioms = {}
-    grep_hits = common.grep_audit()
+    grep_hits = common.grep_audit(common.import_closure([props_module, "Drv." + drv]))
     for h in grep_hits:
         proof_problems.append(("audit", "forbidden token: " + h))
     if rc == 0:
@@ -108,6 +114,8 @@ def main(argv):
         ctx.escalated = True
     if not model_ok:
         ctx.model = common.NullDriver()
+    timings["audit_s"] = round(time.time() - tq, 2)
+    tq = time.time()
     # 4. correspondence + monitor
     infra = None
     try:
@@ -124,6 +132,7 @@ def main(argv):
         ctx.disagree("harness exception (implementation no longer drivable as modelled)",
                      None, traceback.format_exc()[-1500:], None)
     signal.alarm(0)
+    timings["run_s"] = round(time.time() - tq, 2)
     wall = time.time() - t0
     # 5. verdict
     lines = []
@@ -174,6 +183,7 @@ def main(argv):
         "known_findings_reproduced": [h["signature"] for h in ctx.known_hits],
         "notes": ctx.notes,
         "lake_build_s": round(build_s, 2),
+        "timings": timings,
         "exhaustive": bool(getattr(ctx, "exhaustive", False)),
     }
     if infra:
